@@ -463,8 +463,8 @@ SPECS['C13'] = {
     'stubs': ['npvalues (value-level integer arrays: same-dtype wrapping diff, unique, median as exact fraction; the near-uniform '
               'float tolerance test returns an arbitrary boolean)', 'FakeData (index array provider)', 'kint/kfloat'],
     'cuts': CUTS, 'assumptions': CH_ASSUME,
-    'outside': ['the 0.001 squared-relative-tolerance branch and everything on float indices / NaN ordering (float kernels inside numpy): '
-                'where the code consults it, both outcomes are explored and nothing is asserted about the spacing',
+    'outside': ['float indices with non-integer values or magnitudes above 2**50 (rounding of the differences inside numpy); the band '
+                '|1 - d/median| in [0.031, 0.032] of the near-uniform tolerance, where float rounding may decide either way; infinities',
                 'index arrays longer than 3 (spacing) / 4 (assignment) rows'],
     'selftests': ['venv:vf.stubs.selftest:selftest_npvalues'],
     'obligations': _pair('c13', 'spacing', (300, 600), '6 integer dtypes x 1..3 rows x all values of the dtype x both tolerance outcomes',
@@ -633,6 +633,10 @@ for _p in ('C03', 'C08'):
 _castidx = _pair('c13', 'cast_index', (120, 300), 'int32 index data (all values) x 1..2 rows (thorough: 3) x cast to int8 / int16 / uint8 / uint16 (numpy astype: narrowing wraps)',
                  ['FrameItem._setup_frame_params_from_data'], replay=D + 'replay_cast_index', validate=D + 'replay_cast_index', shards=(8, 12))
 SPECS['C13']['obligations'] = SPECS['C13']['obligations'] + _castidx
+_fltidx = _pair('c13', 'float_index', (400, 900), 'float64 index of 1..4 rows, each an integer-valued number of magnitude <= 2**50 (differences exact in binary64) or NaN (numpy NaN semantics), high-compatibility mode on / off; tolerance in exact rationals: a SPACING is declared only for uniformly spaced rows (never NaN, never for an index with a missing sample) and the mode refuses the others',
+                ['FrameItem._compute_spacing_and_direction', 'FrameItem._setup_frame_params_from_data'], replay=D + 'replay_float_index', validate=D + 'replay_float_index', shards=(4, 4))
+for _p in ('C13', 'C17'):
+    SPECS[_p]['obligations'] = SPECS[_p]['obligations'] + _fltidx
 
 # ---------------------------------------------------------------------------------------------------------------
 # round 4 of seeded changes (vf/harness/r4.py, vf/replay/r4.py)
@@ -647,9 +651,9 @@ _longl = _pair('r4', 'long_list', (200, 400), 'AXIS coordinates: lists of 1..12 
                ['Attribute._write_values', 'write_struct', 'Attribute.get_as_bytes'], replay=R4 + 'replay_long_list', validate=R4 + 'replay_long_list', shards=(12, 12))
 _looka = _pair('r4', 'lookalike', (120, 300), '26 strings that look numeric (nan, inf, 1e5, 5., .5, 1_0, blanks ...) through convert_maybe_numeric and AXIS coordinates (finite, exhaustive)',
                ['convert_maybe_numeric', 'convert_numeric'], replay=R4 + 'replay_lookalike', validate=R4 + 'replay_lookalike')
-_shared = _pair('r4', 'shared_dataset', (400, 900), 'two channels of one frame on ONE data set: 8 source dtypes x (no cast + 8 casts)^2 x dict / structured source x 1..2 rows x chunk 1..2',
+_shared = _pair('r4', 'shared_dataset', (400, 900), 'two channels of one frame on ONE data set: 8 source dtypes x (no cast + 8 casts)^2 x dict / structured source x 2 rows (thorough: 1..2) x chunk 1..2 (finite, exhaustive)',
                 ['SourceDataWrapper.determine_dtypes', 'SourceDataWrapper.load_chunk', 'LogicalFile._make_multi_frame_data', 'ChannelItem.dataset_name'],
-                replay=R4 + 'replay_shared_dataset', validate=R4 + 'replay_shared_dataset', shards=(9, 9))
+                replay=R4 + 'replay_shared_dataset', validate=R4 + 'replay_shared_dataset', shards=(18, 18))
 _compl = _pair('r4', 'completeness', (120, 300), 'channel present or not x frame present or not x a rejected add_channel / add_frame call: check_objects refuses an incomplete logical file',
                ['LogicalFile.check_objects', 'LogicalFile._check_completeness', 'LogicalFile.add_frame', 'LogicalFile.add_channel'])
 _foreign = _pair('r4', 'foreign_channel', (120, 300), 'two logical files (own set names): a frame of the second lists a channel object of the first, in place of / in addition to its own',
